@@ -457,7 +457,7 @@ impl StreamInfo {
     ///
     /// -  `min_block_size`: [`u16::MAX`],
     /// -  `max_block_size`: `0`,
-    /// -  `min_frame_size`: [`u32::MAX`],
+    /// -  `min_frame_size`: `0xFF_FFFF` (the maximum of the 24-bit field),
     /// -  `max_frame_size`: `0`,
     /// -  `total_samples`: `0`,
     /// -  `md5_digest`: `[0u8; 16]` (indicating verification disabled.)
@@ -486,7 +486,7 @@ impl StreamInfo {
         let ret = Self {
             min_block_size: u16::MAX,
             max_block_size: 0,
-            min_frame_size: u32::MAX,
+            min_frame_size: (1 << 24) - 1,
             max_frame_size: 0,
             sample_rate: sample_rate as u32,
             channels: channels as u8,
